@@ -36,6 +36,7 @@ func (p Phase) Coq() string {
 type Block struct {
 	Height     int64    `json:"height"`
 	Dt         int64    `json:"dt"`
+	Nanos      int64    `json:"nanos,omitempty"`
 	Proposer   int      `json:"proposer"`
 	Absent     []int    `json:"absent,omitempty"`
 	Evidence   []int    `json:"evidence,omitempty"`
@@ -162,6 +163,7 @@ func (h *H) header() tmproto.Header {
 }
 
 type BlockReq struct {
+	Nanos    int64 // added to the block time (block times with nanosecond parts)
 	Dt       int64
 	Proposer int
 	Absent   []int
@@ -178,7 +180,7 @@ func (h *H) Begin(req BlockReq) bool {
 	if req.Dt <= 0 {
 		req.Dt = 5
 	}
-	c.Time = c.Time.Add(time.Duration(req.Dt) * time.Second)
+	c.Time = c.Time.Add(time.Duration(req.Dt)*time.Second + time.Duration(req.Nanos))
 	hd := h.header()
 	nv := len(c.Validators)
 	hd.ProposerAddress = c.Validators[((req.Proposer%nv)+nv)%nv].ConsAddr
@@ -196,7 +198,7 @@ func (h *H) Begin(req BlockReq) bool {
 		ev = append(ev, abcitypes.Misbehavior{Type: abcitypes.MisbehaviorType_DUPLICATE_VOTE, Validator: abcitypes.Validator{Address: v.ConsAddr, Power: 1},
 			Height: c.Height - 1, Time: c.Time.Add(-time.Duration(req.Dt) * time.Second), TotalVotingPower: int64(nv)})
 	}
-	b := Block{Height: c.Height, Dt: req.Dt, Proposer: req.Proposer, Absent: req.Absent, Evidence: req.Evidence}
+	b := Block{Height: c.Height, Dt: req.Dt, Nanos: req.Nanos, Proposer: req.Proposer, Absent: req.Absent, Evidence: req.Evidence}
 	// is the scheduled software upgrade due in this block?  (read on the last committed state)
 	func() {
 		defer func() { recover() }()
